@@ -13,6 +13,8 @@ import (
 	"time"
 
 	"github.com/deckhouse/deckhouse/pkg/log"
+	metav1 "k8s.io/apimachinery/pkg/apis/meta/v1"
+	"k8s.io/apimachinery/pkg/apis/meta/v1/unstructured"
 
 	"github.com/flant/kube-client/fake"
 	bctx "github.com/flant/shell-operator/pkg/hook/binding_context"
@@ -23,6 +25,9 @@ import (
 	kemtypes "github.com/flant/shell-operator/pkg/kube_events_manager/types"
 	metricstorage "github.com/flant/shell-operator/pkg/metric_storage"
 	schedulemanager "github.com/flant/shell-operator/pkg/schedule_manager"
+	"github.com/flant/shell-operator/pkg/verifhook"
+
+	"verifharness/internal/fakewatch"
 )
 
 type KeysCase struct {
@@ -93,6 +98,7 @@ func keysCase(c KeysCase, ms *metricstorage.MetricStorage) (string, string) {
 	}
 	kem.DefaultFactoryStore.Reset()
 	fc := fake.NewFakeCluster(fake.ClusterVersionV121)
+	wt, _ := fakewatch.Track(fc)
 	ctx, cancel := context.WithCancel(context.Background())
 	defer cancel()
 	mgr := kem.NewKubeEventsManager(ctx, fc.Client, log.NewNop())
@@ -103,6 +109,13 @@ func keysCase(c KeysCase, ms *metricstorage.MetricStorage) (string, string) {
 	ctl.InitScheduleBindings(hc.Schedules, smgr)
 	if err := ctl.HandleEnableKubernetesBindings(func(controller.BindingExecutionInfo) {}); err != nil {
 		return "DIV/enable", err.Error()
+	}
+	if wt != nil {
+		for _, ns := range []string{"ns-k1", "ns-k2"} {
+			if err := wt.Wait("configmaps", ns, 1, 5*time.Second); err != nil {
+				return "DIV/watch", err.Error()
+			}
+		}
 	}
 	for _, name := range []string{"k1", "k2", "s1"} {
 		bc := bctx.BindingContext{Binding: name}
@@ -122,6 +135,51 @@ func keysCase(c KeysCase, ms *metricstorage.MetricStorage) (string, string) {
 		sort.Strings(want)
 		if strings.Join(got, ",") != strings.Join(want, ",") {
 			return "C02/snapshot-keys", fmt.Sprintf("binding %s (group %q, includeSnapshotsFrom %v): snapshots has keys %v, must have %v", name, c.Grp[name], c.Inc[name], got, want)
+		}
+	}
+	// one execution, several contexts naming the same bindings: every occurrence of a binding's snapshot must be the
+	// same list. If SnapshotsFor is called a second time for a binding within one UpdateSnapshots (it is not, thanks
+	// to the per-execution cache), the cluster is changed in between so that the two reads would differ.
+	if c.Grp["k1"] != "" && c.Grp["k1"] == c.Grp["k2"] {
+		calls := map[string]int{}
+		var probeErr error
+		verifhook.Set(func(point string, args ...interface{}) {
+			if point != "kbc.snapshotsFor" || len(args) == 0 {
+				return
+			}
+			b := fmt.Sprint(args[0])
+			calls[b]++
+			if calls[b] == 2 {
+				ns := "ns-" + b
+				before := len(ctl.KubernetesSnapshots()[b])
+				calls[b] = -1000 // do not recurse on the reads above
+				u := &unstructured.Unstructured{Object: map[string]interface{}{"apiVersion": "v1", "kind": "ConfigMap",
+					"metadata": map[string]interface{}{"name": "late", "namespace": ns}, "data": map[string]interface{}{"v": "1"}}}
+				if _, err := fc.Client.Dynamic().Resource(gvr).Namespace(ns).Create(context.Background(), u, metav1.CreateOptions{}); err != nil {
+					probeErr = err
+					return
+				}
+				for k := 0; k < 5000 && len(ctl.KubernetesSnapshots()[b]) == before; k++ {
+					time.Sleep(100 * time.Microsecond)
+				}
+			}
+		})
+		bc1 := bctx.BindingContext{Binding: "k1", Type: kemtypes.TypeEvent}
+		bc1.Metadata.BindingType = htypes.OnKubernetesEvent
+		bc2 := bctx.BindingContext{Binding: "k2", Type: kemtypes.TypeEvent}
+		bc2.Metadata.BindingType = htypes.OnKubernetesEvent
+		out := ctl.UpdateSnapshots([]bctx.BindingContext{bc1, bc2, bc1})
+		verifhook.Set(nil)
+		if probeErr != nil {
+			return "DIV/probe", probeErr.Error()
+		}
+		for _, b := range []string{"k1", "k2"} {
+			n0 := len(out[0].Snapshots[b])
+			for i := 1; i < len(out); i++ {
+				if l, has := out[i].Snapshots[b]; has && len(l) != n0 {
+					return "C02/snapshot-differs-within-execution", fmt.Sprintf("snapshot of %s has %d objects in context 0 and %d in context %d of the same execution", b, n0, len(l), i)
+				}
+			}
 		}
 	}
 	return "", ""
